@@ -13,24 +13,39 @@ RULE = ("tensors: generic SPD 6x6 (Q diag(lam) Q^T, lam in [1,500], Q from 15 pl
         "of the seven crystal systems in standard setting (drawn constants shrunk toward isotropy along a fixed ladder "
         "until eig_min >= 2e-3 eig_max; optional C16/C15 zero in about half), isotropic (E in [1,600], 0 <= nu <= 0.495 "
         "incl. exactly 0 and 1e-12..1e-3), and the same expressed in rotated axes; rotations = small-integer axis + angle "
-        "in [0,180] deg, symmetry elements, non-unit axes rows, list or array arguments; symmetric strains |e| <= 0.05. "
+        "in [0,180] deg, symmetry elements, non-unit axes rows; symmetric strains |e| <= 0.05.  Variants of every tensor: "
+        "overall magnitude 1e-6..1e6 (log-uniform, unit-conversion factors, exactly 1 in ~1/3), weakly anisotropic "
+        "C = Ciso + d (C - Ciso) with 1e-6 <= d <= 1e-2, whole-number constants; every tolerance is relative to max|C|.  "
+        "Object histories: the judged object is fresh or (about half) a used one - empty or built from another tensor, "
+        "whose representations / transform / moduli / normalisation were read in a drawn order - that is re-defined "
+        "through the public setter, crystal-system method or model(); clause history chains 2-5 such re-definitions "
+        "(also back to an earlier tensor) with reads in between; returned arrays are scribbled on.  Input forms: ndarray "
+        "(C or Fortran order, strided view, read-only, integer dtype), nested list / tuple, Python / numpy floats and "
+        "integers for named constants, transform(tol=), is_normal(atol=, rtol=). "
         "Non-trivial: reps - all 36 Voigt entries non-zero (generic SPD / rotated / triclinic); named - the tensor is "
         "anisotropic (changes by > 1e-3 max|C| under a fixed generic rotation); isotropic - nu > 0; rotate - first "
-        "rotation has angle > 5 deg and changes the tensor by > 1e-3 max|C| (not a symmetry element); normalize - "
+        "rotation has angle > 5 deg and changes the tensor by > 1e-3 max|C| (not a symmetry element; weakly anisotropic "
+        "class: by > 1e-6 max|C| = 10x the comparison tolerance); history - the object is re-defined after derived "
+        "quantities of its earlier tensor were read; normalize - "
         "normalisation changes the tensor by > 1e-3 max|C|")
 ASSUMPTIONS = ["numpy linear algebra (inv, eigvalsh, einsum) is correct",
                "Voigt pair order 11,22,33,23,13,12 and the 9x9 order 11,22,33,23,13,12,32,31,21 (atomman convention; any "
                "order of the symmetric pairs gives the same stress-strain law, which is checked separately)",
                "standard crystal settings of Nye's table (principal axis along z, monoclinic unique axis y, trigonal 2-fold "
                "along x) as listed in the ElasticConstants docstrings",
-               "scalar constants may be Python floats or numpy.float64 (atomman itself passes numpy.float64 in normalized_as)",
+               "scalar constants may be Python floats or numpy.float64 (atomman itself passes numpy.float64 in normalized_as); "
+               "whole-number constants may be Python int or numpy.int64 (|value| <= 1e6, so that squares stay in range)",
+               "an array returned by a getter belongs to the caller: writing to it either leaves the object alone (copy "
+               "semantics, what atomman does) or changes the whole object consistently - both are accepted",
                "Cij/transform zero entries below 1e-9/1e-8 of the maximum (documented floors): no comparison is tighter "
                "than 1e-8 max|C|, and compliance-derived numbers get the floor amplified by cond when an entry lies in "
                "the floor band"]
 LEVEL_TEXT = ("Generated-input exploration of ElasticConstants over generic SPD tensors, all seven crystal systems in every "
               "documented keyword form, all 15 isotropic modulus pairs, proper rotations (generic, symmetry elements, "
-              "non-unit axes) and symmetric strains, against independent Voigt/tensor algebra.")
-TECHNIQUE = ("independent Voigt/9x9/4-index maps and compliance weights, stress-strain law through every representation, "
+              "non-unit axes) and symmetric strains, at magnitudes 1e-6..1e6 and down to 1e-6 relative anisotropy, on fresh "
+              "and on used / re-defined objects and in every array-like input form, against independent Voigt/tensor algebra.")
+TECHNIQUE = ("object histories and input forms judged by: "
+             "independent Voigt/9x9/4-index maps and compliance weights, stress-strain law through every representation, "
              "own tensor rotation + Bond matrix, group-action laws, strain-energy and VRH invariance, placement tables "
              "and symmetry generators per crystal system, forward isotropic formulas for all 15 pairs")
 WALL = {'quick': 70, 'thorough': 600}
@@ -99,12 +114,35 @@ def mine_of(C6):
 SHAPES = {'Cij': (6, 6), 'Sij': (6, 6), 'Cij9': (9, 9), 'Cijkl': (3, 3, 3, 3), 'Sijkl': (3, 3, 3, 3)}
 
 
-def check_reps(ec, mine, cond, floor, eps_t, what):
-    """every representation read from ec equals my own map of the intended tensor; symmetries; C:S = I; one law"""
+PERMS5 = tuple(itertools.permutations(range(5)))
+
+
+def _reread(ec, mine, cmax, tolC, tolS, scribbled, what):
+    """second look at every representation (reverse order) after the arrays returned by the first look were possibly
+    written to.  Copy semantics (what atomman does: nothing changes) and live-handle semantics (the whole object follows
+    the factor 2 consistently) are both accepted; representations that disagree with each other are not."""
+    k = 1.0
+    if scribbled is not None:
+        cur = _get(ec, 'Cij', (6, 6))
+        alt = 2.0 if scribbled[0] == 'C' else 0.5
+        if float(np.abs(cur - mine['Cij']).max()) > tolC and float(np.abs(cur - alt * mine['Cij']).max()) <= alt * tolC:
+            k = alt
+    for n in reversed(REPS):
+        exp, tol = (mine[n] * k, tolC * k) if n[0] == 'C' else (mine[n] / k, tolS / k)
+        _close(_get(ec, n, SHAPES[n]), exp, tol,
+               '%s: %s read again%s' % (what, n, '' if scribbled is None else ' after writing to the array returned by ' + scribbled))
+    return k
+
+
+def check_reps(ec, mine, cond, floor, eps_t, what, order=0, scribble=None):
+    """every representation read from ec (in the drawn order) equals my own map of the intended tensor; symmetries;
+    C:S = I; one law; reads are repeatable, also after the caller wrote to a returned array"""
     cmax, smax = np.abs(mine['Cij']).max(), np.abs(mine['Sij']).max()
     tolC = 1e-8 * cmax
     tolS = ((4e-8 if floor else 0.0) * cond + 1e-11 * cond) * smax
-    got = {n: _get(ec, n, SHAPES[n]) for n in REPS}
+    got = {}
+    for i in PERMS5[order % 120]:
+        got[REPS[i]] = _get(ec, REPS[i], SHAPES[REPS[i]])
     for n in REPS:
         _close(got[n], mine[n], tolS if n[0] == 'S' else tolC, '%s: %s against my own map' % (what, n))
     d = el.symmetry_defect(got['Cijkl'])
@@ -127,6 +165,209 @@ def check_reps(ec, mine, cond, floor, eps_t, what):
     _close(back4, eps_t, 1e-10 * cond * emax + 1e-300, '%s: Sijkl:(Cijkl:eps) against eps' % what)
     back6 = got['Sij'] @ sig6
     _close(back6, e6, 1e-10 * cond * emax + 1e-300, '%s: Sij.(Cij.e6) against e6' % what)
+    # the same object looked at a second time
+    if scribble is not None:
+        got[scribble] *= 2.0
+    return _reread(ec, mine, cmax, tolC, tolS, scribble, what)
+
+
+# ----------------------------------------------------------------------------- input forms, object histories
+
+KEY_RO = _key('Cij-setter:read-only-input')
+IN_FORMS = ('array', 'array', 'list', 'list', 'tuple', 'forder', 'strided', 'readonly', 'int', 'intlist')
+_inform = st.sampled_from(IN_FORMS)
+NUMS = ('npfloat', 'float', 'int', 'npint', 'float', 'npfloat')
+_num = st.sampled_from(NUMS)
+
+
+def _tuples(x):
+    return tuple(_tuples(v) for v in x) if isinstance(x, list) else x
+
+
+def _form(x, form):
+    """(fresh object holding the numbers x in one of the array-like forms, name of the form used).  The integer forms
+    need whole numbers (below 2**53) and fall back to array / list otherwise."""
+    a = np.array(x, dtype=float)
+    if form in ('int', 'intlist'):
+        if bool(np.all(a == np.round(a))) and float(np.abs(a).max()) < 2.0 ** 53:
+            a = a.astype(np.int64)
+            return (a, 'int') if form == 'int' else (a.tolist(), 'intlist')
+        form = 'array' if form == 'int' else 'list'
+    if form == 'list':
+        return a.tolist(), form
+    if form == 'tuple':
+        return _tuples(a.tolist()), form
+    if form == 'forder':
+        return np.asfortranarray(a), form
+    if form == 'strided':
+        big = np.full(tuple(2 * n for n in a.shape), np.nan)
+        view = big[tuple(slice(None, None, 2) for _ in a.shape)]
+        view[...] = a
+        return view, form
+    if form == 'readonly':
+        a.setflags(write=False)
+        return a, form
+    return a, 'array'
+
+
+def _number(v, num):
+    """a named constant as Python float / numpy.float64 / (whole numbers up to 1e6 only) Python int / numpy.int64"""
+    v = float(v)
+    if num in ('int', 'npint'):
+        if v.is_integer() and abs(v) <= 1e6:
+            return (int(v), 'int') if num == 'int' else (np.int64(v), 'npint')
+        num = 'float' if num == 'int' else 'npfloat'
+    return (np.float64(v), 'npfloat') if num == 'npfloat' else (v, 'float')
+
+
+def _numbers(kw, num, labels):
+    out = {}
+    for n, v in kw.items():
+        out[n], used = _number(v, num)
+        labels.add('num_' + used)
+    return out
+
+
+def _info(C6, mine):
+    w = np.linalg.eigvalsh(C6)
+    cond = float(w[-1] / w[0])
+    floor = _floor_hit(C6, 2e-9)
+    cmax, smax = float(np.abs(C6).max()), float(np.abs(mine['Sij']).max())
+    return {'cond': cond, 'floor': floor, 'cmax': cmax, 'smax': smax, 'tolC': 1e-8 * cmax,
+            'tolS': ((4e-8 if floor else 0.0) * cond + 1e-11 * cond) * smax}
+
+
+def _payload(T, C6, mine, route, form, formidx, num, labels):
+    """(route, argument) defining the tensor of case T: one of the five arrays in the drawn input form, the named
+    constants of its crystal system (the 21 triclinic ones for a generic tensor), or a data model"""
+    if route in REPS:
+        if T.get('whole') and form in ('array', 'list'):
+            form = 'int' if form == 'array' else 'intlist'      # whole-number tensors: integer-typed ndarray / list of ints
+        arg, used = _form(mine[route], form)
+        labels.add('in_' + used)
+        return route, arg
+    if route == 'model':
+        import atomman as am
+        return route, am.ElasticConstants(Cij=np.array(C6)).model()
+    if T['kind'] == 'named':
+        forms = g.FORMS[T['system']]
+        return T['system'], _numbers(g.kwargs_of(T, forms[formidx % len(forms)]), num, labels)
+    return 'triclinic', _numbers(g.constants(T), num, labels)
+
+
+def _define(ec, route, arg, what):
+    """(re-)define an object: ec None -> the constructor; else the public setter / crystal-system method / model().
+    The Cij setter writes into the array it is given (zeroing of small terms): a read-only array is the listed finding."""
+    import atomman as am
+    try:
+        if route in REPS:
+            if ec is None:
+                return am.ElasticConstants(**{route: arg})
+            setattr(ec, route, arg)
+        elif route == 'model':
+            if ec is None:
+                return am.ElasticConstants(model=arg)
+            ec.model(model=arg)
+        else:
+            if ec is None:
+                return am.ElasticConstants(**arg)           # system chosen by the number of keywords
+            getattr(ec, route)(**arg)
+        return ec
+    except ValueError as e:
+        if route in ('Cij', 'Cij9') and isinstance(arg, np.ndarray) and not arg.flags.writeable and 'read-only' in str(e):
+            raise Violation('%s: %s given as a read-only float64 array raised ValueError(%s): the Cij setter zeroes small '
+                            'terms in the caller\'s array instead of a copy' % (what, route, e), key=KEY_RO)
+        raise
+
+
+TOUCHES = ('Cij', 'Sij', 'Cij9', 'Cijkl', 'Cijkl', 'Sijkl', 'transform', 'transform', 'transform_I', 'bulk', 'shear',
+           'normalized', 'is_normal', 'str', 'model')
+_touches = st.lists(st.sampled_from(TOUCHES), min_size=0, max_size=4)
+EMPTY_OK = ('Cij', 'Cij9', 'Cijkl', 'str')
+
+
+def _touch(ec, t, C6, mine, info, what):
+    """one look at a derived quantity of an object holding the tensor C6, judged like everywhere else"""
+    if t in SHAPES:
+        _close(_get(ec, t, SHAPES[t]), mine[t], info['tolS'] if t[0] == 'S' else info['tolC'], '%s: %s against my own map' % (what, t))
+    elif t in ('transform', 'transform_I'):
+        R = GENERIC_R if t == 'transform' else np.eye(3)
+        exp = el.rotate_voigt(C6, R)
+        tr = _transform(ec, np.array(R), exp, '%s: transform' % what)
+        _close(_get(tr, 'Cij', (6, 6)), exp, 1e-7 * max(info['cmax'], float(np.abs(exp).max())), '%s: %s against my own rotation' % (what, t))
+    elif t in ('bulk', 'shear'):
+        ref = el.vrh(C6)
+        cond = info['cond']
+        tol = (1e-11 * cond + (6e-7 * cond * cond if info['floor'] else 0.0) + 1e-7) * info['cmax']
+        for style in ('Voigt', 'Reuss', 'Hill'):
+            v = float(getattr(ec, t)(style))
+            require(abs(v - ref[(t, style)]) <= tol, lambda: '%s: %s(%s) = %.12g, my own = %.12g' % (what, t, style, v, ref[(t, style)]))
+    elif t == 'normalized':
+        ec.normalized_as('cubic')
+    elif t == 'is_normal':
+        ec.is_normal('hexagonal')
+    elif t == 'str':
+        str(ec)
+    elif t == 'model':
+        ec.model()
+    else:
+        raise HarnessError('unknown touch %r' % (t,))
+
+
+_pre_sel = st.integers(0, 5)
+
+
+@st.composite
+def pres(draw):
+    """the past of the judged object: None = none (fresh, 1/3); else it was empty (1/6) or held another tensor (1/2)
+    and was looked at before being re-defined"""
+    w = draw(_pre_sel)
+    if w <= 1:
+        return None
+    T0 = None if w == 2 else draw(g.tensors(variants=True))
+    return {'T0': T0, 'via': draw(_rep), 'touch': draw(_touches)}
+
+
+CACHEABLE = ('Cijkl', 'Sijkl', 'Sij', 'Cij9', 'transform', 'transform_I', 'bulk', 'shear')
+
+
+def _used(pre, labels):
+    """None for no past (the caller uses the constructor), else the used object"""
+    import atomman as am
+    if pre is None:
+        labels.add('pre_none')
+        return None
+    T0 = pre['T0']
+    if T0 is None:
+        ec = am.ElasticConstants()
+        labels.add('pre_empty')
+        for t in pre['touch']:
+            if t in ('Cij', 'Cij9', 'Cijkl'):
+                v = _get(ec, t, SHAPES[t])
+                require(not v.any(), lambda: 'empty object: %s is not zero' % t)
+                labels.add('pre_looked')
+            elif t == 'str':
+                str(ec)
+        return ec
+    C0 = g.cij(T0)
+    mine0 = mine_of(C0)
+    info0 = _info(C0, mine0)
+    ec = am.ElasticConstants(**{pre['via']: _arg(mine0[pre['via']], False)})
+    for t in pre['touch']:
+        _touch(ec, t, C0, mine0, info0, 'earlier tensor of the same object')
+    labels.add('pre_other')
+    if any(t in CACHEABLE for t in pre['touch']):
+        labels.add('pre_looked')
+    return ec
+
+
+def _build(case, T, C6, mine, route, labels, what):
+    """the object under judgement: fresh, or a used one re-defined through route"""
+    ec = _used(case.get('pre'), labels)
+    form = case.get('inform', 'list' if case.get('aslist') else 'array')
+    route, arg = _payload(T, C6, mine, route, form, case.get('form', 0), case.get('num', 'float'), labels)
+    labels.add('route_' + (route if route in REPS or route == 'model' else 'named'))
+    return _define(ec, route, arg, what)
 
 
 # ----------------------------------------------------------------------------- reps
@@ -135,10 +376,15 @@ _rep = st.sampled_from(REPS)
 _bool = st.booleans()
 
 
+_order = st.integers(0, 119)
+_scribble = st.sampled_from((None, None, None) + REPS)
+_tensors = g.tensors(variants=True)
+
+
 @st.composite
 def reps_cases(draw):
-    return {'T': draw(g.tensors()), 'via': draw(_rep), 'then': draw(_rep), 'aslist': draw(_bool),
-            'strain': draw(g.strains())}
+    return {'T': draw(_tensors), 'via': draw(_rep), 'then': draw(_rep), 'inform': draw(_inform),
+            'strain': draw(g.strains()), 'pre': draw(pres()), 'order': draw(_order), 'scribble': draw(_scribble)}
 
 
 def oracle_reps(case):
@@ -152,14 +398,19 @@ def oracle_reps(case):
     mine = mine_of(C6)
     eps_t = np.array(case['strain'], dtype=float)
     via, then = case['via'], case['then']
-    ec = am.ElasticConstants(**{via: _arg(mine[via], case['aslist'])})
-    check_reps(ec, mine, cond, floor, eps_t, 'built from my %s' % via)
-    # atomman's own output of another representation fed back in
-    out = getattr(ec, then)
-    ec2 = am.ElasticConstants(**{then: out.tolist() if case['aslist'] else out})
-    check_reps(ec2, mine, cond, floor, eps_t, 'built from my %s, rebuilt from its %s' % (via, then))
-    _close(ec2.Cij, ec.Cij, 1e-8 * np.abs(C6).max(), 'round trip %s -> %s -> Cij' % (via, then))
-    labels.update({'via_' + via, 'then_' + then, 'list' if case['aslist'] else 'array'})
+    ec = _build(case, T, C6, mine, via, labels, 'object defined by my %s' % via)
+    scribble = case.get('scribble')
+    k = check_reps(ec, mine, cond, floor, eps_t, 'built from my %s' % via, case.get('order', 0), scribble)
+    if scribble is not None:
+        labels.add('scribble')
+    if k == 1.0:
+        # atomman's own output of another representation fed back in
+        out = getattr(ec, then)
+        listed = case.get('inform', 'list' if case.get('aslist') else 'array') in ('list', 'tuple', 'intlist')
+        ec2 = am.ElasticConstants(**{then: out.tolist() if listed else out})
+        check_reps(ec2, mine, cond, floor, eps_t, 'built from my %s, rebuilt from its %s' % (via, then))
+        _close(ec2.Cij, ec.Cij, 1e-8 * np.abs(C6).max(), 'round trip %s -> %s -> Cij' % (via, then))
+    labels.update({'via_' + via, 'then_' + then, 'list' if 'in_list' in labels or 'in_tuple' in labels or 'in_intlist' in labels else 'array'})
     if via != then:
         labels.add('reps_differ')
     if floor:
@@ -171,7 +422,8 @@ def oracle_reps(case):
 
 # ----------------------------------------------------------------------------- named
 
-_how = st.sampled_from(['init', 'init', 'method'])
+_how = st.sampled_from(['init', 'init', 'method', 'method', 'reuse', 'reuse'])
+_named_v = g.named(variants=True)
 _formidx = st.integers(0, 7)
 _hexangle = st.one_of(gens.nice(0.0, 360.0, 2), st.sampled_from([30.0, 45.0, 90.0, 17.0]))
 _scale = st.one_of(st.none(), st.none(), st.lists(st.sampled_from([1.0, 2.0, 0.5, 3.7, 0.01, 250.0]), min_size=3, max_size=3))
@@ -179,16 +431,24 @@ _scale = st.one_of(st.none(), st.none(), st.lists(st.sampled_from([1.0, 2.0, 0.5
 
 @st.composite
 def named_cases(draw):
-    T = draw(g.named())
-    return {'T': T, 'form': draw(_formidx), 'how': draw(_how), 'angle': draw(_hexangle), 'npfloat': draw(_bool),
-            'scale': draw(_scale), 'aslist': draw(_bool)}
+    T = draw(_named_v)
+    how = draw(_how)
+    return {'T': T, 'form': draw(_formidx), 'how': how, 'angle': draw(_hexangle), 'num': draw(_num),
+            'scale': draw(_scale), 'axform': draw(_inform), 'pre': draw(pres()) if how == 'reuse' else None}
 
 
-def _axes(R, scale, aslist):
+def _axes(R, scale, form, labels=None):
+    """axes argument of transform: rows of R, optionally of other lengths, in one of the array-like forms (old cases:
+    form is the boolean 'aslist')"""
     A = np.array(R, dtype=float)
     if scale is not None:
         A = A * np.array(scale, dtype=float)[:, None]
-    return A.tolist() if aslist else A
+    if form is True or form is False or form is None:
+        form = 'list' if form else 'array'
+    arg, used = _form(A, form)
+    if labels is not None:
+        labels.add('axes_' + used)
+    return arg
 
 
 def oracle_named(case):
@@ -197,17 +457,18 @@ def oracle_named(case):
     system = T['system']
     forms = g.FORMS[system]
     form = forms[case['form'] % len(forms)]
-    kw = g.kwargs_of(T, form)
-    if case['npfloat']:
-        kw = {n: np.float64(v) for n, v in kw.items()}
     C6 = g.cij(T)
     cmax = np.abs(C6).max()
     labels = g.labels_of(T)
+    kw = _numbers(g.kwargs_of(T, form), case.get('num', 'npfloat' if case.get('npfloat') else 'float'), labels)
     labels.update({'how_' + case['how'], 'form_' + form, 'nkw%d' % len(kw)})
     if case['how'] == 'init':
         ec = am.ElasticConstants(**kw)
-    else:
+    elif case['how'] == 'method' or case.get('pre') is None:
         ec = am.ElasticConstants()
+        getattr(ec, system)(**kw)
+    else:
+        ec = _used(case['pre'], labels)             # an object with a past, re-defined by the crystal-system method
         getattr(ec, system)(**kw)
     got = _get(ec, 'Cij', (6, 6))
     _close(got, C6, 1e-8 * cmax, '%s constants %r: Cij against my placement table' % (system, sorted(kw)))
@@ -216,8 +477,9 @@ def oracle_named(case):
         # my own rotation of atomman's matrix
         _close(el.rotate_voigt(got, R), got, 1e-8 * cmax, '%s tensor under its symmetry rotation %s (my rotation)' % (system, name))
         # atomman's rotation of atomman's matrix
-        tr = _transform(ec, _axes(R, case['scale'], case['aslist']), got, 'transform(%s)' % name)
+        tr = _transform(ec, _axes(R, case['scale'], case.get('axform', case.get('aslist')), labels), got, 'transform(%s)' % name)
         _close(tr.Cij, got, 1e-7 * cmax, '%s tensor under its symmetry rotation %s (transform)' % (system, name))
+    _close(_get(ec, 'Cijkl', (3, 3, 3, 3)), el.voigt_to_tensor(C6), 1e-8 * cmax, '%s constants %r: Cijkl against my own map' % (system, sorted(kw)))
     if case['scale'] is not None:
         labels.add('nonunit_axes')
     change = float(np.abs(el.rotate_voigt(C6, GENERIC_R) - C6).max())
@@ -234,11 +496,16 @@ PAIRS15 = tuple(itertools.combinations(MODULI, 2))
 KEY_ME = _key('isotropic:M-E-pair-double-root-npfloat')
 
 
+_iso_v = g.isotropic(variants=True)
+
+
 @st.composite
 def isotropic_cases(draw):
-    T = draw(g.isotropic())
+    T = draw(_iso_v)
+    reuse = draw(_bool)
     return {'T': T, 'alias': [draw(_bool) for _ in range(3)], 'npfloat': draw(_bool), 'rot': draw(g.rot_specs()),
-            'order': draw(_bool)}
+            'order': draw(_bool), 'num': draw(_num), 'reuse': reuse, 'pre': draw(pres()) if reuse else None,
+            'look': draw(st.integers(0, 2 ** 15 - 1)) if reuse else 0}
 
 
 def oracle_isotropic(case):
@@ -247,9 +514,25 @@ def oracle_isotropic(case):
     m = el.isotropic_moduli(E, nu)
     C6 = el.isotropic_voigt(m['lambda'], m['mu'])
     cmax = float(C6.max())
-    conv = np.float64 if case['npfloat'] else float
+    labels = g.labels_of(case['T'])
+    num = case.get('num', 'npfloat' if case['npfloat'] else 'float')
+    npfloat = num == 'npfloat'
+
+    def conv(v):
+        x, used = _number(v, num)
+        labels.add('num_' + used)
+        return x
     alias = dict(zip(('M', 'lambda', 'mu'), case['alias']))
-    labels = {'npfloat' if case['npfloat'] else 'pyfloat'}
+    labels.add('npfloat' if npfloat else 'pyfloat')
+    # reuse: ONE object (with a past) is re-defined by each of the 15 pairs in turn and looked at in between
+    reuse = bool(case.get('reuse'))
+    shared = None
+    if reuse:
+        labels.add('reuse')
+        shared = _used(case.get('pre'), labels)
+        if shared is None:
+            shared = am.ElasticConstants()
+    C4 = el.voigt_to_tensor(C6)
     # (M,E): mu = (3M + E - S)/8, S^2 = D = (E - M)(E - 9M) -> sqrt-type conditioning at the double root nu = 0
     M = m['M']
     D = (E - M) * (E - 9 * M)
@@ -261,7 +544,7 @@ def oracle_isotropic(case):
         labels.add('ME_double_root_band')
     deferred = None
     first = None
-    for a, b in PAIRS15:
+    for ip, (a, b) in enumerate(PAIRS15):
         if (a, b) == ('lambda', 'nu') and nu == 0.0:
             labels.add('lambda_nu_at_nu0_excluded')        # does not determine the material
             continue
@@ -274,21 +557,24 @@ def oracle_isotropic(case):
         if (a, b) == ('M', 'E'):
             tol = max(tol, tol_ME)
             try:
-                ec = am.ElasticConstants(**kw)
+                ec = _define(shared, 'isotropic', kw, 'isotropic pair')
             except AssertionError as e:
-                if band and case['npfloat'] and 'Cij values not valid' in str(e):
+                if band and npfloat and 'Cij values not valid' in str(e):
                     deferred = Violation('ElasticConstants(%s) with numpy.float64 values at the double root nu=%r (M=%r, E=%r) '
                                          'raised AssertionError(%s): negative rounding residue under the square root gives nan'
                                          % (', '.join(names), nu, m['M'], E, e), key=KEY_ME)
                     continue
                 raise
         else:
-            ec = am.ElasticConstants(**kw)
+            ec = _define(shared, 'isotropic', kw, 'isotropic pair')
         _close(_get(ec, 'Cij', (6, 6)), C6, tol, 'isotropic pair %r (E=%r, nu=%r)' % (tuple(names), E, nu))
+        if reuse and (case.get('look', 0) >> ip) & 1:
+            _close(_get(ec, 'Cijkl', (3, 3, 3, 3)), C4, tol, 'isotropic pair %r (E=%r, nu=%r): Cijkl of the re-defined object' % (tuple(names), E, nu))
         if first is None:
             first = ec
     R = el.rotation_matrix(*case['rot'])
     _close(_transform(first, R, C6, 'transform(%r) of the isotropic tensor' % (case['rot'],)).Cij, C6, 1e-7 * cmax, 'isotropic tensor under rotation %r' % (case['rot'],))
+    _close(_get(first, 'Cijkl', (3, 3, 3, 3)), C4, 1e-8 * cmax, 'Cijkl of the isotropic tensor')
     if deferred is not None:
         raise deferred
     if nu > 0:
@@ -311,10 +597,16 @@ _rot = st.one_of(g.rot_specs(), g.rot_specs(), g.rot_specs(), st.sampled_from(SP
 STYLES = (('bulk', 'Voigt'), ('bulk', 'Reuss'), ('bulk', 'Hill'), ('shear', 'Voigt'), ('shear', 'Reuss'), ('shear', 'Hill'))
 
 
+ROUTES = REPS + ('Cij', 'Cij', 'named', 'named', 'model')
+_route = st.sampled_from(ROUTES)
+_tol = st.sampled_from([None, None, 1e-12, 1e-10, 1e-6, 1e-5])
+
+
 @st.composite
 def rotate_cases(draw):
-    return {'T': draw(g.tensors()), 'R1': draw(_rot), 'R2': draw(_rot), 'scale': draw(_scale), 'aslist': draw(_bool),
-            'strain': draw(g.strains())}
+    return {'T': draw(_tensors), 'R1': draw(_rot), 'R2': draw(_rot), 'scale': draw(_scale), 'axform': draw(_inform),
+            'strain': draw(g.strains()), 'pre': draw(pres()), 'route': draw(_route), 'inform': draw(_inform),
+            'form': draw(_formidx), 'num': draw(_num), 'tol': draw(_tol)}
 
 
 def oracle_rotate(case):
@@ -333,14 +625,25 @@ def oracle_rotate(case):
         raise HarnessError('reference rotation: 4-index route and Bond-matrix route disagree')
     big = max(cmax, float(np.abs(exp1).max()), float(np.abs(exp12).max()))
     t1tol, t2tol = 1e-7 * big, 1e-6 * big
-    ec = am.ElasticConstants(Cij=_arg(C6, False))
-    ax = lambda R: _axes(R, case['scale'], case['aslist'])
+    ec = _build(case, T, C6, mine_of(C6), case.get('route', 'Cij'), labels, 'object to rotate')
+    ax = lambda R: _axes(R, case['scale'], case.get('axform', case.get('aslist')), labels)
     # identity
     _close(_transform(ec, ax(np.eye(3)), C6, 'transform(identity)').Cij, C6, t1tol, 'transform(identity)')
     # against my own tensor rotation
     t1 = _transform(ec, ax(R1), exp1, 'transform(R1)')
     got1 = _get(t1, 'Cij', (6, 6))
     _close(got1, exp1, t1tol, 'transform(R1=%r) against my own R R R R C' % (case['R1'],))
+    # documented option: relative threshold below which terms are identified as zero
+    tol = case.get('tol')
+    if tol is not None:
+        tt = _get(ec.transform(ax(R1), tol=tol), 'Cij', (6, 6))
+        e1max = float(np.abs(exp1).max())
+        _close(tt, exp1, max(1e-7, 2 * tol) * big, 'transform(R1=%r, tol=%r) against my own R R R R C' % (case['R1'], tol))
+        sure = np.abs(exp1) < 0.5 * tol * e1max
+        require(not tt[sure].any(), lambda: 'transform(R1, tol=%r) keeps terms below half the threshold:\n%r' % (tol, tt))
+        labels.add('tol_given')
+        if sure.any() and bool((np.abs(exp1[sure]) > 1e-13 * e1max).any()):
+            labels.add('tol_zeroes_something')
     # composition and inverse
     t12 = _transform(t1, ax(R2), exp12, 'transform(R2) after transform(R1)')
     _close(t12.Cij, exp12, t2tol, 'transform(R2) after transform(R1) against my own rotation by R2.R1')
@@ -374,11 +677,14 @@ def oracle_rotate(case):
     change = float(np.abs(exp1 - C6).max())
     if case['scale'] is not None:
         labels.add('nonunit_axes')
-    labels.add('list' if case['aslist'] else 'array')
     if floor:
         labels.add('floor_band')
-    if change <= 1e-6 * cmax and ang > 1.0:
+    if change <= 1e-6 * cmax and ang > 1.0 and 'near_iso' not in labels:
         labels.add('symmetry_element')
+    if 'near_iso' in labels and ang > 5.0 and change > 1e-6 * cmax:
+        labels.update({'near_iso_rotates', 'nt'})   # weakly anisotropic, yet the rotation is 10x above the comparison tolerance
+    if cmax < 2e-3 and ang > 5.0 and change > 1e-3 * cmax:
+        labels.add('tiny_numbers_rotate')       # all numbers below 2e-3 (absolute tolerances of ~1e-4 would bite)
     if float(exp1.min()) < 0:
         labels.add('negative_entries')
     if ang > 5.0 and change > 1e-3 * cmax:
@@ -392,13 +698,17 @@ NORM_SYSTEMS = ('isotropic', 'cubic', 'hexagonal', 'tetragonal', 'rhombohedral',
 _normsys = st.sampled_from(NORM_SYSTEMS + NORM_SYSTEMS + ('monoclinic',))
 
 
+_tols = st.sampled_from([None, None, [1e-4, 0.0], [1e-6, 1e-6], [1e-2, 1e-3], [0.0, 1e-4], [1e-7, 1e-7]])
+
+
 @st.composite
 def normalize_cases(draw):
-    T = draw(g.tensors())
+    T = draw(_tensors)
     s = draw(_normsys)
     if T['kind'] == 'named' and T['system'] != 'monoclinic' and draw(st.integers(0, 2)) == 0:
         s = T['system']              # fixed point: the tensor is built from this system's constants
-    return {'T': T, 'system': s, 'how': draw(st.sampled_from(['Cij', 'named']))}
+    return {'T': T, 'system': s, 'how': draw(st.sampled_from(['Cij', 'named'])), 'pre': draw(pres()),
+            'route': draw(_route), 'inform': draw(_inform), 'form': draw(_formidx), 'num': draw(_num), 'tols': draw(_tols)}
 
 
 def _consts_from(system, C):
@@ -416,11 +726,13 @@ def oracle_normalize(case):
     labels = g.labels_of(T)
     labels.add('to_' + s)
     built_from = T['system'] if T['kind'] == 'named' else None
+    route = case.get('route', 'Cij')
     if case['how'] == 'named' and built_from is not None:
-        ec = am.ElasticConstants(**g.kwargs_of(T))
+        route = 'named'
         labels.add('built_named')
-    else:
-        ec = am.ElasticConstants(Cij=_arg(C6, False))
+    elif route == 'named':
+        route = 'Cij'
+    ec = _build(case, T, C6, mine_of(C6), route, labels, 'object to normalise')
     try:
         N = ec.normalized_as(s)
     except ValueError as e:
@@ -439,15 +751,32 @@ def oracle_normalize(case):
     _close(N2.Cij, NC, tol, 'normalized_as(%s) applied twice' % s)
     require(bool(N.is_normal(s)), lambda: 'is_normal(%s) is False on the result of normalized_as(%s)' % (s, s))
     # is_normal, both directions of its documented tolerance test (10x band around atol=rtol=1e-4)
+    # (judged on the object's own matrix, which was checked against mine above: the Cij setter zeroes terms below
+    #  1e-9 max|C|, which at large magnitudes is more than the absolute tolerance)
+    own = _get(ec, 'Cij', (6, 6))
     diff = np.abs(C6 - NC)
+    diff_own = np.abs(own - NC)
     allow = 1e-4 + 1e-4 * np.abs(NC)
     verdict = bool(ec.is_normal(s))
-    if np.all(diff <= 0.1 * allow):
+    if np.all(diff_own <= 0.1 * allow):
         require(verdict, lambda: 'is_normal(%s) is False although the tensor equals its normalisation within %.3g' % (s, float(diff.max())))
         labels.add('is_normal_true')
-    elif np.any(diff >= 10 * allow):
+    elif np.any(diff_own >= 10 * allow):
         require(not verdict, lambda: 'is_normal(%s) is True although the tensor differs from its normalisation by %.3g' % (s, float(diff.max())))
         labels.add('is_normal_false')
+    # the documented tolerances given explicitly, relative to the size of the numbers: [atol / max|C|, rtol]
+    if case.get('tols') is not None:
+        atol, rtol = case['tols'][0] * cmax, case['tols'][1]
+        allow = atol + rtol * np.abs(NC)
+        v2 = bool(ec.is_normal(s, atol=atol, rtol=rtol))
+        edge = 10 * EPS * cmax
+        diff2 = diff_own
+        if np.all(diff2 <= 0.1 * allow - edge):
+            require(v2, lambda: 'is_normal(%s, atol=%r, rtol=%r) is False although the tensor equals its normalisation within %.3g' % (s, atol, rtol, float(diff2.max())))
+            labels.add('is_normal_tols_true')
+        elif np.any(diff2 >= 10 * allow + edge):
+            require(not v2, lambda: 'is_normal(%s, atol=%r, rtol=%r) is True although the tensor differs from its normalisation by %.3g' % (s, atol, rtol, float(diff2.max())))
+            labels.add('is_normal_tols_false')
     if built_from == s or s == 'triclinic':
         require(verdict, lambda: 'is_normal(%s) is False for a tensor built from %s constants' % (s, s))
         _close(NC, C6, 1e-8 * cmax, 'normalized_as(%s) of a tensor built from %s constants' % (s, s))
@@ -457,25 +786,120 @@ def oracle_normalize(case):
     return labels
 
 
+# ----------------------------------------------------------------------------- history
+
+_step_T = st.one_of(_tensors, _tensors, _tensors, st.integers(0, 3))
+_nsteps = st.integers(2, 5)
+
+
+@st.composite
+def _steps(draw):
+    return {'T': draw(_step_T), 'route': draw(_route), 'inform': draw(_inform), 'form': draw(_formidx), 'num': draw(_num),
+            'look': draw(_touches), 'full': draw(_bool), 'order': draw(_order), 'scribble': draw(_scribble)}
+
+
+@st.composite
+def history_cases(draw):
+    n = draw(_nsteps)
+    return {'empty': draw(_bool), 'look0': draw(_touches), 'steps': [draw(_steps()) for _ in range(n)],
+            'rot': draw(_rot), 'strain': draw(g.strains())}
+
+
+def oracle_history(case):
+    """ONE object is defined and re-defined 2-5 times (setters in every input form, crystal-system methods, model();
+    also back to a tensor it held before); after every definition some derived quantities are read and judged, every
+    representation is judged in full at drawn steps and at the end, and the final tensor is rotated"""
+    import atomman as am
+    labels = set()
+    eps_t = np.array(case['strain'], dtype=float)
+    ec = None
+    if case['empty']:
+        ec = am.ElasticConstants()
+        labels.add('start_empty')
+        for t in case['look0']:
+            if t in ('Cij', 'Cij9', 'Cijkl'):
+                v = _get(ec, t, SHAPES[t])
+                require(not v.any(), lambda: 'empty object: %s is not zero' % t)
+            elif t == 'str':
+                str(ec)
+    seen, ndef, looked, stale_risk = [], 0, False, 0
+    C6 = None
+    for i, step in enumerate(case['steps']):
+        T = step['T']
+        if isinstance(T, int):
+            if len(seen) < 2:
+                continue
+            T = seen[T % (len(seen) - 1)]                # a tensor the object held before the current one
+            labels.add('back_to_earlier')
+        seen.append(T)
+        C6 = g.cij(T)
+        mine = mine_of(C6)
+        info = _info(C6, mine)
+        what = 'definition %d of the same object' % (ndef + 1)
+        route, arg = _payload(T, C6, mine, step['route'], step['inform'], step['form'], step['num'], labels)
+        labels.add('route_' + (route if route in REPS or route == 'model' else 'named'))
+        ec = _define(ec, route, arg, what)
+        if looked and ndef > 0:
+            stale_risk += 1
+        ndef += 1
+        for t in step['look']:
+            _touch(ec, t, C6, mine, info, what)
+            looked = looked or t in CACHEABLE
+        if step['full'] or i == len(case['steps']) - 1:
+            k = check_reps(ec, mine, info['cond'], info['floor'], eps_t, what, step['order'], step['scribble'])
+            looked = True
+            if step['scribble'] is not None:
+                labels.add('scribble')
+            if k != 1.0:                                 # live-handle semantics: the object now holds k times the tensor
+                C6 = k * C6
+                seen[-1] = g.scaled_case(T, k)
+    if C6 is None:
+        return labels
+    R = el.rotation_matrix(*case['rot'])
+    exp = el.rotate_voigt(C6, R)
+    big = max(float(np.abs(C6).max()), float(np.abs(exp).max()))
+    tr = _transform(ec, np.array(R), exp, 'transform after %d definitions' % ndef)
+    _close(_get(tr, 'Cij', (6, 6)), exp, 1e-7 * big, 'transform(%r) of the object after %d definitions, against my own rotation' % (case['rot'], ndef))
+    _close(_get(ec, 'Cij', (6, 6)), C6, 1e-8 * float(np.abs(C6).max()), 'the object after transform (must return a new object)')
+    labels.add('ndef%d' % min(ndef, 4))
+    if stale_risk:
+        labels.add('nt')                                 # re-defined after derived quantities had been read
+    if stale_risk >= 2:
+        labels.add('redefined_twice_after_reads')
+    return labels
+
+
 CLAUSES = [
-    Clause('reps', oracle_reps, reps_cases, quick=6000, thorough=120000,
-           min_share={'nt': 0.2, 'reps_differ': 0.4, 'list': 0.25, 'via_Sijkl': 0.08, 'then_Cij9': 0.08},
+    Clause('reps', oracle_reps, reps_cases, quick=4500, thorough=100000,
+           min_share={'nt': 0.2, 'reps_differ': 0.4, 'list': 0.25, 'via_Sijkl': 0.08, 'then_Cij9': 0.08, 'pre_looked': 0.1, 'pre_empty': 0.04,
+                      'scribble': 0.2, 'near_iso': 0.1, 'scale_small': 0.1, 'scale_large': 0.04, 'in_readonly': 0.02, 'in_strided': 0.04,
+                      'in_forder': 0.03},
            desc='build from one of Cij/Sij/Cij9/Cijkl/Sijkl, read all five against independent Voigt maps and compliance '
                 'weights; minor/major symmetries; Cijkl:Sklmn = symmetric identity; one stress-strain law through all five; '
                 'rebuild from atomman\'s own output of a second representation'),
-    Clause('named', oracle_named, named_cases, quick=4000, thorough=90000,
-           min_share={'nt': 0.4, 'how_method': 0.15, 'nonunit_axes': 0.15},
+    Clause('named', oracle_named, named_cases, quick=3500, thorough=90000,
+           min_share={'nt': 0.4, 'how_method': 0.15, 'nonunit_axes': 0.15, 'how_reuse': 0.15, 'pre_looked': 0.03, 'near_iso': 0.1,
+                      'scale_small': 0.08, 'num_int': 0.02, 'num_npint': 0.02, 'axes_readonly': 0.04, 'whole': 0.08},
            desc='crystal-system constructors in every documented keyword form against my placement table; invariance '
                 'under the system\'s symmetry generators by my rotation and by transform()'),
-    Clause('isotropic', oracle_isotropic, isotropic_cases, quick=3000, thorough=70000,
-           min_share={'nt': 0.4, 'nu0': 0.04, 'npfloat': 0.25},
+    Clause('isotropic', oracle_isotropic, isotropic_cases, quick=2700, thorough=70000,
+           min_share={'nt': 0.4, 'nu0': 0.04, 'npfloat': 0.25, 'reuse': 0.19, 'pre_looked': 0.05, 'scale_small': 0.14, 'scale_large': 0.04},
            desc='all 15 isotropic modulus pairs (with the C11/C12/C44 aliases) give the tensor of (E, nu); rotation invariance'),
-    Clause('rotate', oracle_rotate, rotate_cases, quick=5000, thorough=110000,
-           min_share={'nt': 0.4, 'nonunit_axes': 0.15, 'symmetry_element': 0.02},
+    Clause('rotate', oracle_rotate, rotate_cases, quick=3600, thorough=90000,
+           min_share={'nt': 0.4, 'nonunit_axes': 0.15, 'symmetry_element': 0.02, 'near_iso_rotates': 0.08, 'tiny_numbers_rotate': 0.012,
+                      'pre_looked': 0.13, 'tol_given': 0.25, 'tol_zeroes_something': 0.02, 'route_model': 0.04, 'route_named': 0.05,
+                      'scale_small': 0.1},
            desc='transform against my own tensor rotation; identity, composition, inverse; strain energy of co-rotated '
                 'strain; Voigt/Reuss/Hill bulk and shear against invariants and unchanged by rotation'),
-    Clause('normalize', oracle_normalize, normalize_cases, quick=6000, thorough=110000,
-           min_share={'nt': 0.3, 'fixed_point': 0.08, 'is_normal_false': 0.2, 'is_normal_true': 0.1},
+    Clause('history', oracle_history, history_cases, quick=1800, thorough=40000,
+           min_share={'nt': 0.22, 'back_to_earlier': 0.08, 'redefined_twice_after_reads': 0.13, 'scribble': 0.25, 'start_empty': 0.2,
+                      'route_model': 0.07, 'route_named': 0.1},
+           desc='one object defined and re-defined 2-5 times through every setter (all array-like input forms), '
+                'crystal-system method and model(), also back to an earlier tensor, with judged reads of every derived '
+                'quantity in between, writes to returned arrays, full representation check and a final rotation'),
+    Clause('normalize', oracle_normalize, normalize_cases, quick=4500, thorough=100000,
+           min_share={'nt': 0.3, 'fixed_point': 0.08, 'is_normal_false': 0.2, 'is_normal_true': 0.1, 'is_normal_tols_true': 0.08,
+                      'is_normal_tols_false': 0.14, 'pre_looked': 0.1, 'near_iso': 0.08},
            max_share={'refusal': 0.2},
            desc='normalized_as idempotent, result has the form of the system, is_normal true on it and on tensors built '
                 'from that system\'s constants; is_normal both directions; monoclinic refused'),
